@@ -4,14 +4,14 @@ use crate::support::*;
 use educe::Educe;
 use core::cmp::Ordering;
 #[derive(Educe)]
-#[repr(i32)]
-#[educe(Ord, PartialEq, Eq)]
-pub enum T { Some(#[educe(Ord(rank = "+0"))] Option<u8>, &'static u8), Unit(bool, ::core::num::NonZeroU8), B { b: Option<u8> }, None(#[educe(Ord(rank(-2)))] i64) }
-impl PartialOrd for T { fn partial_cmp(&self, o: &Self) -> Option<Ordering> { Some(::core::cmp::Ord::cmp(self, o)) } }
-pub fn values() -> Vec<T> { vec![T::Some(None, &3u8), T::Some(None, &200u8), T::Some(Some(0), &3u8), T::Some(Some(0), &200u8), T::Some(Some(255), &3u8), T::Some(Some(255), &200u8), T::Unit(false, ::core::num::NonZeroU8::new(1).unwrap()), T::Unit(false, ::core::num::NonZeroU8::new(200).unwrap()), T::Unit(true, ::core::num::NonZeroU8::new(1).unwrap()), T::Unit(true, ::core::num::NonZeroU8::new(200).unwrap()), T::B { b: None }, T::B { b: Some(0) }, T::B { b: Some(255) }, T::None(-5), T::None(0), T::None(9)] }
-pub fn show(x: &T) -> String { #[allow(unused_variables)] match x { T::Some(p0, p1) => format!("Some({},{})", sv(p0), sv(p1)), T::Unit(p0, p1) => format!("Unit({},{})", sv(p0), sv(p1)), T::B { b: p0 } => format!("B({})", sv(p0)), T::None(p0) => format!("None({})", sv(p0)) } }
-pub fn o_disc(x: &T) -> i128 { match x { T::Some(_, _) => 0, T::Unit(_, _) => 1, T::B { b: _ } => 2, T::None(_) => 3 } }
-pub fn o_cmp(a: &T, b: &T) -> Ordering { match (a, b) { (T::Some(a0, a1), T::Some(b0, b1)) => { let c = ::core::cmp::Ord::cmp(a1, b1); if c != Ordering::Equal { return c; } let c = ::core::cmp::Ord::cmp(a0, b0); if c != Ordering::Equal { return c; } Ordering::Equal }, (T::Unit(a0, a1), T::Unit(b0, b1)) => { let c = ::core::cmp::Ord::cmp(a0, b0); if c != Ordering::Equal { return c; } let c = ::core::cmp::Ord::cmp(a1, b1); if c != Ordering::Equal { return c; } Ordering::Equal }, (T::B { b: a0 }, T::B { b: b0 }) => { let c = ::core::cmp::Ord::cmp(a0, b0); if c != Ordering::Equal { return c; } Ordering::Equal }, (T::None(a0), T::None(b0)) => { let c = ::core::cmp::Ord::cmp(a0, b0); if c != Ordering::Equal { return c; } Ordering::Equal }, _ => o_disc(a).cmp(&o_disc(b)) } }
+#[repr(i64)]
+#[educe(PartialEq, Eq, PartialOrd)]
+pub enum T { V1(i64, ::core::num::NonZeroU8), None(::core::num::NonZeroU8) }
+
+pub fn values() -> Vec<T> { vec![T::V1(-5, ::core::num::NonZeroU8::new(1).unwrap()), T::V1(-5, ::core::num::NonZeroU8::new(200).unwrap()), T::V1(0, ::core::num::NonZeroU8::new(1).unwrap()), T::V1(0, ::core::num::NonZeroU8::new(200).unwrap()), T::V1(9, ::core::num::NonZeroU8::new(1).unwrap()), T::V1(9, ::core::num::NonZeroU8::new(200).unwrap()), T::None(::core::num::NonZeroU8::new(1).unwrap()), T::None(::core::num::NonZeroU8::new(200).unwrap())] }
+pub fn show(x: &T) -> String { #[allow(unused_variables)] match x { T::V1(p0, p1) => format!("V1({},{})", sv(p0), sv(p1)), T::None(p0) => format!("None({})", sv(p0)) } }
+pub fn o_disc(x: &T) -> i128 { match x { T::V1(_, _) => 0, T::None(_) => 1 } }
+pub fn o_pcmp(a: &T, b: &T) -> Option<Ordering> { match (a, b) { (T::V1(a0, a1), T::V1(b0, b1)) => { match ::core::cmp::PartialOrd::partial_cmp(a0, b0) { Some(Ordering::Equal) => (), x => return x } match ::core::cmp::PartialOrd::partial_cmp(a1, b1) { Some(Ordering::Equal) => (), x => return x } Some(Ordering::Equal) }, (T::None(a0), T::None(b0)) => { match ::core::cmp::PartialOrd::partial_cmp(a0, b0) { Some(Ordering::Equal) => (), x => return x } Some(Ordering::Equal) }, _ => Some(o_disc(a).cmp(&o_disc(b))) } }
 #[repr(C)] pub struct Wrap { pub pre: u8, pub x: T, pub post: [u8; 9] }
 pub fn wrap(i: usize, n: u8) -> Wrap { Wrap { pre: n, x: values().swap_remove(i), post: [n; 9] } }
-pub fn run(out: &mut Out) { let vs = values(); for (i, a) in vs.iter().enumerate() { for (j, b) in vs.iter().enumerate() { let e = o_cmp(a, b); let g = ::core::cmp::Ord::cmp(a, b); out.check(g == e, "ordlayout_29", "cmp", || format!("cmp({}, {}) = {:?} expected {:?}", show(a), show(b), g, e)); for n in [0u8, 1, 0x7f, 0x80, 0xff] { let wa = wrap(i, n); let wb = wrap(j, !n); let g = ::core::cmp::Ord::cmp(&wa.x, &wb.x); let e = o_cmp(a, b); out.check(g == e, "ordlayout_29", "cmp_neighbours", || format!("cmp({}, {}) with neighbour bytes {} = {:?} expected {:?}", show(a), show(b), n, g, e)); } } } }
+pub fn run(out: &mut Out) { let vs = values(); for (i, a) in vs.iter().enumerate() { for (j, b) in vs.iter().enumerate() { let e = o_pcmp(a, b); let g = ::core::cmp::PartialOrd::partial_cmp(a, b); out.check(g == e, "ordlayout_29", "partial_cmp", || format!("partial_cmp({}, {}) = {:?} expected {:?}", show(a), show(b), g, e)); for n in [0u8, 1, 0x7f, 0x80, 0xff] { let wa = wrap(i, n); let wb = wrap(j, !n); let g = ::core::cmp::PartialOrd::partial_cmp(&wa.x, &wb.x); let e = o_pcmp(a, b); out.check(g == e, "ordlayout_29", "cmp_neighbours", || format!("cmp({}, {}) with neighbour bytes {} = {:?} expected {:?}", show(a), show(b), n, g, e)); } } } }
